@@ -89,12 +89,13 @@ TEXT = {
                    "a refusal that did was closed over before it was written, finding F29), "
                    "C19_bounded, C19_conservation (over any event the forwarded-or-queued receipts are those of before plus exactly the accepted submission, unchanged, once), "
                    "C19_drain. The validity predicate (Keccak-256, signature recovery) and the HTTP forwarding are NOT modelled: they are exercised on the real "
-                   "HandleReceipts loop by go/cmd/receipts (valid triples, 12 single-field corruptions, service up/slow/down, queue full) against a reference validity written from the statement; that the answers reach the submitter over a real socket and that its connection goes on: go/cmd/wire scenario receipts.",
+                   "HandleReceipts loop by go/cmd/receipts (valid triples, 14 single-field corruptions, service up/slow/down, queue full; built and run with and without cgo, whose signature recovery differs on recovery ids 4 - 7: finding F42) against a reference validity written from the statement (Keccak-256, 65 bytes, recovery id 0 - 3, a key is recovered); that the answers reach the submitter over a real socket and that its connection goes on: go/cmd/wire scenario receipts.",
              note=_std_note + " Cryptographic primitives are oracles computed with go-ethereum; HTTP delivery is observed, not modelled.", technique=_tech + " + receipts side harness"),
  'C15': dict(level="C15_gate (the protected handler runs iff Auth.admit, and a rejected request leaves its state untouched), C15_sound (admission implies a held secret, a "
-                   "well-formed HMAC-signed token whose MAC verifies against the current secret, unexpired, not before nbf, iat at most 10 s ahead), C15_rejects (no "
+                   "well-formed HMAC-signed token whose MAC verifies against the current secret, unexpired, not before nbf, iat at most 10 s ahead, naming HDS as issuer and carrying an expiry), C15_identity_token_rejected (the identity the server signs with the same secret and "
+                   "returns to a health request - no issuer, no expiry - is never admitted: finding F41), C15_rejects (no "
                    "token, no secret, alg none / asymmetric, wrong MAC, expired, malformed: each rejected), C15_precedence (Bearer header > query > cookie). The model is tied to "
-                   "http/auth.go + hagall-common by go/cmd/auth: the real wrappers over a real hdsclient.Client, every token mutation on every carrier, secret rotation; "
+                   "http/auth.go + hagall-common by go/cmd/auth: the real wrappers over a real hdsclient.Client, every token mutation on every carrier, secret rotation, and the token the real /health endpoint hands to a caller announcing itself as HDS; "
                    "the mounting of both wrappers in cmd/main.go is the regenerated fact routeMounts.",
              note=_std_note + " HMAC-SHA-2 is an oracle (the harness computes whether a token's MAC matches the current secret); unforgeability is a cryptographic assumption. "
                   "Token verification itself lives in hagall-common and golang-jwt, outside /repo; it is modelled from reading and covered by the correspondence.", technique=_tech + " + auth side harness"),
